@@ -150,9 +150,12 @@ func unmarshalMessageSet(mi *MessageInfo, b []byte, p pointer, opts unmarshalOpt
 			if opts.DiscardUnknown() {
 				return nil
 			}
+			// v carries the length prefix as it was encoded in the input.
+			// Store the canonical encoding, as the reflection path does.
+			m, _ := protowire.ConsumeBytes(v)
 			u := mi.mutableUnknownBytes(p)
 			*u = protowire.AppendTag(*u, num, protowire.BytesType)
-			*u = append(*u, v...)
+			*u = protowire.AppendBytes(*u, m)
 			return nil
 		}
 		if !o.initialized {
